@@ -288,7 +288,6 @@ def doDelete : RM Event := do
   let (a, b) ← pop2
   let lo ← liftE a.toLineNumber
   let hi ← liftE b.toLineNumber
-  if lo = some 0 && hi = some Gen.maxLineNumber then throw (Error.mk' Code.illegalFunctionCall)
   let s ← get
   let (l, removed) := s.listing.removeRange lo hi
   if removed then
